@@ -1,7 +1,7 @@
 (** * C17 -- IRI patterns and examples come from the data *)
 From Coq Require Import List Ascii String ZArith Bool Permutation.
 From Shexer Require Import Lib.PyStr Lib.Dict Gen.Consts Spec.Rdf Model.Tracker Model.MinIri Model.Examples
-     Spec.MinIriSpec Proofs.MinIriProofs Proofs.ExamplesProofs.
+     Spec.MinIriSpec Proofs.MinIriProofs Proofs.ExamplesProofs Proofs.ExamplesComplete.
 Import ListNotations.
 Local Open Scope Z_scope.
 
@@ -140,7 +140,7 @@ Qed.
     (compared byte for byte with the real text on every run: harness/vp/pipedecor.py).
     [run_shexc_decor_lines] is the same text as a list of newline-terminated lines. *)
 From Shexer Require Import Model.Profiler Model.Tokens Model.Freq Model.FreqInst Model.Shexing Model.SerialShexc
-     Model.Run Model.RunDecor Model.DecorDom Spec.DecorSpec Proofs.DecorProofs Proofs.RunWitness.
+     Model.Run Model.RunDecor Model.DecorDom Spec.DecorSpec Proofs.DecorProofs Proofs.DecorTotal Proofs.RunWitness.
 
 (** with both options off it is the plain run *)
 Theorem C17_decor_off : forall fa c thr g,
@@ -252,15 +252,40 @@ Qed.
 Print Assumptions C17_printed_stem_longest.
 
 (** the example printed after the closing brace is an instance of the shape's class
-    (rendered as a prefixed name or between angle brackets) *)
+    (rendered as a prefixed name or between angle brackets).  Second case: only when
+    [_serialize_example] carries the [candidate is None] guard ([c_example_none_guard];
+    without it the case is the AttributeError of C17-F4) the closing line has no example, and
+    then the class has no instance at all -- an example is never withheld from a class that
+    has one. *)
 Theorem C17_printed_example_from_data : forall c dmi mode g ins d z sh ex,
   run_decor_data c dmi mode g = Some (ins, d) -> z_ns z <> [] ->
   example_text z {| d_dmi := dmi; d_mode := mode; d_inverse := r_inverse c |} d sh = inl ex ->
   (in_modes mode c17d_modes_shape_example = false /\ ex = []) \/
+  (c_example_none_guard = true /\ (forall x, ~ is_instance ins (sh_class sh) x) /\ ex = []) \/
   exists x, is_instance ins (sh_class sh) x /\
             ex = c17d_inst_pre ++ iri_or_prefixed (z_ns z) x ++ c17d_inst_post.
 Proof. exact printed_example_from_data. Qed.
 Print Assumptions C17_printed_example_from_data.
+
+(** the shape-example slot is complete: with examples_mode 'shape' / 'all', every class
+    that has an instance gets an example, and it is one of its instances
+    (Proofs/ExamplesComplete.v; for all instance dictionaries and graphs) *)
+Theorem C17_shape_example_complete : forall dmi mode ip ins g d c i,
+  profile_examples dmi mode ip ins g = Some d -> wants_shape_examples mode = true ->
+  is_instance ins c i -> exists x, shape_example d c = Some x /\ is_instance ins c x.
+Proof.
+  intros dmi mode ip ins g d c i E W Hi.
+  destruct (shape_example_complete _ _ _ _ _ _ _ _ E W Hi) as [x X].
+  exists x. split; [exact X | eapply shape_example_sound; eassumption].
+Qed.
+Print Assumptions C17_shape_example_complete.
+
+(** with the guard, printing the example of a class the dictionary knows cannot raise *)
+Theorem C17_example_text_total : forall z dc d sh,
+  c_example_none_guard = true -> dget d (sh_class sh) <> None ->
+  exists ex, example_text z dc d sh = inl ex.
+Proof. exact example_text_total_guard. Qed.
+Print Assumptions C17_example_text_total.
 
 (** the example comment put first on a constraint shows a value [v] of that property, in
     that direction, on an instance of the class ([constraint_example_ok], as in
@@ -341,7 +366,9 @@ Proof. repeat split; vm_compute; reflexivity. Qed.
 
 (** ** C17-F4: with a shape example requested, a printed shape without any instance makes
     the extraction fail (AttributeError), although the same run without the option
-    succeeds *)
+    succeeds -- on the source without the [candidate is None] guard in
+    [ShexSerializer._serialize_example] ([c_example_none_guard = false]); with the guard
+    the shape is printed without an example line *)
 Definition c17_f4_cfg : rcfg :=
   {| r_tau := c_RDF_TYPE; r_targets := Some [Str "http://ex.org/C1"; Str "http://ex.org/Cnone"]; r_ns := [];
      r_shapes_ns := c_SHAPES_DEFAULT_NAMESPACE; r_cap := (-1)%Z;
@@ -353,9 +380,92 @@ Definition c17_f4_graph : graph :=
   [ c17_T "http://ex.org/a/i1" "http://www.w3.org/1999/02/22-rdf-syntax-ns#type" "http://ex.org/C1";
     T (Node KIri (Str "http://ex.org/a/i1")) (Str "http://ex.org/p1") (OL (Str "abc") (Str "http://www.w3.org/2001/XMLSchema#string")) ].
 
-Lemma C17_F4_refuted :
+(** on the text of [_serialize_example] without the [candidate is None] guard *)
+Lemma C17_F4_refuted : c_example_none_guard = false ->
   exists c g, (exists t, run_shexc BAlg c thr0 g = inl t) /\
               run_shexc_decor BAlg c false (Some c_SHAPE_EXAMPLES) thr0 g = inr (DE REAttr).
 Proof.
-  exists c17_f4_cfg, c17_f4_graph. split; [eexists|]; vm_compute; reflexivity.
+  intros G. first [ vm_compute in G; discriminate G
+                  | exists c17_f4_cfg, c17_f4_graph; split; [eexists|]; vm_compute; reflexivity ].
+Qed.
+
+(** with the guard (regression of C17-F4): the same input is printed, the shape of the
+    class without instances without an example line; the run is inside the domain of
+    [C17_text_strip_decor] and its stripped text is the text of the plain run (shown in
+    report mode 'abs'; [C17_F4_status] below is about the pinned input itself).
+    [C17_structure_unchanged] / [C17_text_strip_decor] are stated for every run that
+    prints: they cover such shapes as soon as the run prints them. *)
+Definition c17_f4_cfg_abs : rcfg :=     (* [c17_f4_cfg] with instances_report_mode 'abs' (figures as plain counts) *)
+  {| r_tau := c_RDF_TYPE; r_targets := Some [Str "http://ex.org/C1"; Str "http://ex.org/Cnone"]; r_ns := [];
+     r_shapes_ns := c_SHAPES_DEFAULT_NAMESPACE; r_cap := (-1)%Z;
+     r_inverse := false; r_remove_empty := false; r_discard_useless := true; r_keep_less_specific := true;
+     r_all_compliant := true; r_disable_or := true; r_allow_redundant_or := false; r_allow_opt := true;
+     r_disable_exact := false; r_disable_comments := false; r_mode := FAbs |}.
+
+Example C17_F4_fixed : c_example_none_guard = true ->
+  run_shexc_decor BAlg c17_f4_cfg_abs false (Some c_SHAPE_EXAMPLES) thr0 c17_f4_graph = inl (unlines [
+    "PREFIX : <http://weso.es/shapes/>";
+    "";
+    ":C1   # 1 instance.";
+    "{";
+    "   <http://www.w3.org/1999/02/22-rdf-syntax-ns#type>  [<http://ex.org/C1>]  ;          # 1 instance.";
+    "   <http://ex.org/p1>  <http://www.w3.org/2001/XMLSchema#string>            # 1 instance.";
+    "} // rdfs:comment <http://ex.org/a/i1>";
+    "";
+    "";
+    ":Cnone   # 0 instances.";
+    "{";
+    "}";
+    "";
+    ""]%string)
+  /\ run_decor_domb BAlg c17_f4_cfg_abs false (Some c_SHAPE_EXAMPLES) thr0 c17_f4_graph = true
+  /\ run_shexc BAlg c17_f4_cfg_abs thr0 c17_f4_graph = inl (unlines [
+    "PREFIX : <http://weso.es/shapes/>";
+    "";
+    ":C1   # 1 instance.";
+    "{";
+    "   <http://www.w3.org/1999/02/22-rdf-syntax-ns#type>  [<http://ex.org/C1>]  ;          # 1 instance.";
+    "   <http://ex.org/p1>  <http://www.w3.org/2001/XMLSchema#string>            # 1 instance.";
+    "}";
+    "";
+    "";
+    ":Cnone   # 0 instances.";
+    "{";
+    "}";
+    "";
+    ""]%string).
+Proof.
+  intros G. first [ vm_compute in G; discriminate G | repeat split; vm_compute; reflexivity ].
+Qed.
+
+(** with the guard, for every configuration, graph, threshold and frequency algebra:
+    [_serialize_example] raises for no shape of the run (every printed shape's class is a
+    key of [_class_counts], hence of the example dictionary) ... *)
+Theorem C17_example_line_never_raises : forall fa c dmi mode thr g ns shapes ins d,
+  c_example_none_guard = true ->
+  run_shapes fa c thr g = inl (ns, shapes) ->
+  run_decor_data c dmi mode g = Some (ins, d) ->
+  forall sh, In sh shapes ->
+    exists ex, example_text (zcfg_of c ns) {| d_dmi := dmi; d_mode := mode; d_inverse := r_inverse c |} d sh = inl ex.
+Proof. exact run_example_text_total. Qed.
+Print Assumptions C17_example_line_never_raises.
+
+(** ... and examples_mode 'shape' never makes an extraction fail that succeeds without it:
+    the converse of [C17_F4_refuted], for all inputs *)
+Theorem C17_F4_repaired : forall fa c thr g t,
+  c_example_none_guard = true ->
+  run_shexc fa c thr g = inl t ->
+  exists t', run_shexc_decor fa c false (Some c_SHAPE_EXAMPLES) thr g = inl t'.
+Proof. intros fa c thr g t G. apply run_shape_examples_total; [exact G | reflexivity]. Qed.
+Print Assumptions C17_F4_repaired.
+
+(** the flag is one of the two: exactly one of [C17_F4_refuted] / [C17_F4_fixed] speaks
+    about the source tree the constants were generated from *)
+Example C17_F4_status :
+  (c_example_none_guard = false /\
+   run_shexc_decor BAlg c17_f4_cfg false (Some c_SHAPE_EXAMPLES) thr0 c17_f4_graph = inr (DE REAttr)) \/
+  (c_example_none_guard = true /\
+   exists t, run_shexc_decor BAlg c17_f4_cfg false (Some c_SHAPE_EXAMPLES) thr0 c17_f4_graph = inl t).
+Proof.
+  first [ left; split; vm_compute; reflexivity | right; split; [|eexists]; vm_compute; reflexivity ].
 Qed.
